@@ -29,8 +29,8 @@ pub fn expectation<K: Fam>(cx: &StepCx<K>, fault_pending: bool) -> Option<Expect
             // build when that key belongs to the other scheme (cross-scheme CombinedKey)
             let mut calls = calls.clone();
             if let Some(f) = cx.keys.get(*first) {
-                if f.fam.scheme() != signer.fam.scheme() {
-                    calls.push(BCall::AddValue { key: f.fam.scheme().key_name().to_vec(), val: TVal::Bytes(f.pk.clone()) });
+                if f.fam.key_name() != signer.fam.key_name() {
+                    calls.push(BCall::AddValue { key: f.fam.key_name().to_vec(), val: TVal::Bytes(f.pk.clone()) });
                 }
             }
             Some(model::expect_build(&mcx, &calls))
